@@ -13,8 +13,7 @@ Qed.
 
 Lemma memz_false x l : memz x l = false <-> ~ In x l.
 Proof.
-  rewrite <- memz_In. destruct (memz x l); split; intros H; try congruence.
-  exfalso. apply H. reflexivity.
+  rewrite <- memz_In. destruct (memz x l); split; intros H; congruence.
 Qed.
 
 Lemma disjointb_spec a b : disjointb a b = true <-> (forall x, In x a -> ~ In x b).
